@@ -37,11 +37,17 @@ def main():
         print(__doc__); sys.exit(2)
     wt, mdir, sid, prop = sys.argv[2:6]
     skip_existing = '--skip-existing' in sys.argv
+    def opt(name):
+        return sys.argv[sys.argv.index(name) + 1] if name in sys.argv else None
+    o_place, o_run, o_setup, o_install, o_demo = opt('--place'), opt('--run'), opt('--setup'), opt('--install'), opt('--demo')
     patch = os.path.join(mdir, 'patch.diff')
     demos = [f for f in os.listdir(mdir) if f.endswith('.rs') or f.endswith('.sh')]
     header = {}
     demo_file = None
-    for f in demos:
+    if o_run:
+        demo_file = o_demo or (demos[0] if demos else None)
+        header = {'place': o_place or '', 'run': o_run}
+    for f in ([] if o_run else demos):
         txt = open(os.path.join(mdir, f)).read()
         m1 = re.search(r'Place at:\s*(\S+)', txt)
         m2 = re.search(r'Run with:\s*(.+)', txt)
@@ -57,8 +63,17 @@ def main():
     dest = os.path.join(wt, header['place'])
     res = {'seeded_id': sid, 'property': prop, 'demo': demo_file, 'demo_place': header['place'], 'demo_cmd': run}
     clean(wt)
-    os.makedirs(os.path.dirname(dest), exist_ok=True)
-    shutil.copy(os.path.join(mdir, demo_file), dest)
+    def install():
+        if o_setup:
+            r, o, _ = sh(f'git apply {os.path.join(mdir, o_setup)}', wt)
+            if r != 0: print('setup diff does not apply', o); sys.exit(1)
+        if o_install:
+            r, o, _ = sh(f'bash {os.path.join(mdir, o_install)} {wt}', mdir)
+            if r != 0: print('install script failed', o); sys.exit(1)
+        if header['place']:
+            os.makedirs(os.path.dirname(dest), exist_ok=True)
+            shutil.copy(os.path.join(mdir, demo_file), dest)
+    install()
     rc, out, dt = sh(run, wt)
     res['demo_without_patch'] = {'exit': rc, 'wall_s': round(dt), 'tail': out[-600:]}
     rc2, out2, _ = sh(f'git apply {patch}', wt)
@@ -66,7 +81,9 @@ def main():
         print('patch does not apply:', out2); clean(wt); sys.exit(1)
     rc, out, dt = sh(run, wt)
     res['demo_with_patch'] = {'exit': rc, 'wall_s': round(dt), 'tail': out[-900:]}
-    os.remove(dest)
+    # existing tests run on patch alone: clean, re-apply the patch only
+    clean(wt)
+    sh(f'git apply {patch}', wt)
     # existing tests of touched crates
     touched = set()
     for line in open(patch):
@@ -96,6 +113,9 @@ def main():
     os.makedirs(out_dir, exist_ok=True)
     shutil.copy(patch, os.path.join(out_dir, 'patch.diff'))
     shutil.copy(os.path.join(mdir, demo_file), os.path.join(out_dir, demo_file))
+    for extra in (o_setup, o_install):
+        if extra:
+            shutil.copy(os.path.join(mdir, extra), os.path.join(out_dir, extra))
     if notes:
         shutil.copy(os.path.join(mdir, 'notes.md'), os.path.join(out_dir, 'notes.md'))
     meta_p = os.path.join(out_dir, 'meta.json')
